@@ -20,6 +20,8 @@ Checking requests (`<op> <args…> => <implementation output>`, answered `model=
   wmodel2c / lmodel2c / wmodel1c / lmodel1c <…> <plainhex> => <hex>   the COMPRESSED writers: byte-exact with the
                                            compressor's output taken from the implementation's bytes, and the
                                            harness-decompressed payload = the model's uncompressed payload
+  pbuf <ops,…> => <digests,…>              sequences of Write / WriteAt / ReadAt / scan / Truncate / ref+ReadAt on the real
+                                           pageBuffer (export hook) against Model/PageBuffer with the extracted pageSize
   ptrace <a|r<id>|f<id>|u<id>,…> => ok <n>   the page-event trace recorded by the hooks in protocol/buffer.go during a
                                            sequential decode/hold/release/encode scenario is accepted by the LTS of
                                            Model/Pages (trace acceptance): no page is handed out again while a count is held
@@ -36,6 +38,7 @@ import KafkaVerif.Model.RecordWriter
 import KafkaVerif.Model.RecordReader
 import KafkaVerif.Model.Pages
 import KafkaVerif.Model.ConnReader
+import KafkaVerif.Model.PageBuffer
 
 namespace KV.OracleC05
 open KV KV.RW KV.Spec.RB
@@ -215,6 +218,26 @@ def replayPages : List String → Nat → Model.Pages.PState → List (Nat × Na
       | none => .error k
       | some s' => replayPages es (k + 1) s' ids'
 
+/-! ### page buffer operations (export hook protocol/verif_export_pages.go) against Model/PageBuffer -/
+
+def digest (b : Bytes) : String := s!"{b.length}:{hex8 (crcs.ieee b)}"
+
+/-- ops: `w<len>.<seed>` Write, `a<off>.<len>.<seed>` WriteAt, `r<off>.<len>` ReadAt, `s<b>.<e>` scan, `t<n>` Truncate,
+`f<b>.<e>.<off>.<n>` ref [b,e) then ReadAt(n bytes at off); read-type ops contribute a digest -/
+def runPbuf (P : Nat) : List String → Model.PageBuffer.PB → List String → Option (List String)
+  | [], _, acc => some acc.reverse
+  | op :: ops, pb, acc =>
+    let args := ((op.drop 1).toString.splitOn ".").mapM (·.toNat?)
+    match op.take 1 |>.toString, args with
+    | "w", some [l, sd] => runPbuf P ops (Model.PageBuffer.write P pb (pattern l sd)) acc
+    | "a", some [off, l, sd] => runPbuf P ops (Model.PageBuffer.writeAt P pb (pattern l sd) off) acc
+    | "r", some [off, n] => runPbuf P ops pb (digest (Model.PageBuffer.readAt P pb off n) :: acc)
+    | "s", some [b, e] => runPbuf P ops pb (digest (Model.PageBuffer.scan P pb b e) :: acc)
+    | "t", some [n] => runPbuf P ops (Model.PageBuffer.truncate pb n) acc
+    | "f", some [b, e, off, n] =>
+      runPbuf P ops pb (digest (Model.PageBuffer.refReadAt P (Model.PageBuffer.refTo P pb b e) b (e - b) off n) :: acc)
+    | _, _ => none
+
 /-! ### requests -/
 
 def parseRecsV2 (s : String) : Option (List RecV2) :=
@@ -239,6 +262,11 @@ def step (line : String) : String :=
         match zargs.mapM (parseZ bytes) with
         | none => "bad-op"
         | some zs => checkWire tag bytes zs impl
+    | ["pbuf", opsText] =>
+      let model := match runPbuf Gen.RecordConsts.pageSize (opsText.splitOn ",") ⟨0, []⟩ [] with
+        | some ds => if ds.isEmpty then "-" else ",".intercalate ds
+        | none => "bad-ops"
+      s!"model={model} holds={if model == impl then 1 else 0}"
     | ["ptrace", evs] =>
       let es := if evs == "-" then [] else evs.splitOn ","
       let model := match replayPages es 0 Model.Pages.init [] with
